@@ -201,7 +201,11 @@ pub fn c08() -> i32 {
     rep.rule = "live injection grid: one forged packet - a re-serialised authentic Input of that link with exactly one aspect replaced (status count, start frame, payload from the enumerated byte strings / single-byte substitutions / truncations, wrong frame sizes), or any message kind under a foreign magic, or an unknown source address - at every round (handshake, running, after a timeout disconnect, after shutdown) and both positions relative to the authentic packets; differential oracle against the same run without the injection; plus the decoder sweep of C14 for the payload bytes in isolation; non-trivial = every injected run; distinct = distinct forged packets x rounds".to_owned();
     rep.assumptions = vec!["a forged packet with the right magic and a well-formed, decodable, right-sized payload is indistinguishable from authentic traffic and is not in scope".into(), "random/mutational payloads beyond the enumerated ones are not attempted".into()];
     let props = ["C08", "PANIC"];
-    let payloads: Vec<Vec<u8>> = if t { let mut p = payload_words(2); p.extend(structured_payloads()); p } else { let mut p = payload_words(1); p.extend(structured_payloads()); p };
+    // every payload of <= 1 byte plus the structured family at every round; in the thorough tier
+    // additionally every 2-byte payload at three protocol states (one round each of the
+    // handshake, the running phase and the phase after a disconnect)
+    let payloads: Vec<Vec<u8>> = { let mut p = payload_words(1); p.extend(structured_payloads()); p };
+    let payloads2: Vec<Vec<u8>> = if t { let mut p = payload_words(2); p.extend(structured_payloads()); p } else { payloads.clone() };
     let mut scns: Vec<Scenario> = Vec::new();
     let mut n_forged = 0usize;
     let mut states = Vec::new();
@@ -255,8 +259,10 @@ pub fn c08() -> i32 {
             // an authentic packet the receiver has certainly processed already (latency 1)
             let old_auth = inputs.iter().rev().find(|p| p.0 <= r - 3);
             let mut forged: Vec<(String, WMessage)> = Vec::new();
+            let big = t && Some(&r) == rounds.get(1) && base.specs.is_empty() && base.peers[0].window == 2;
+            let payloads = if big { &payloads2 } else { &payloads };
             if let Some((_, m)) = auth {
-                forged.extend(forgeries(m, base.num_players, &payloads));
+                forged.extend(forgeries(m, base.num_players, payloads));
                 if let Some((_, om)) = old_auth {
                     forged.extend(forgeries(om, base.num_players, &[]).into_iter().filter(|f| f.0.starts_with("frame-size") || f.0.starts_with("extra-frames")).map(|f| (format!("old-{}", f.0), f.1)));
                 }
@@ -266,7 +272,7 @@ pub fn c08() -> i32 {
             } else {
                 // no authentic input exists yet (early handshake): forge one from scratch
                 let m = WMessage { magic: b_magic, body: WBody::Input(WInput { peer_connect_status: vec![WConn { disconnected: false, last_frame: -1 }; base.num_players], disconnect_requested: false, start_frame: 0, ack_frame: -1, bytes: codec::encode(&[0], [vec![3u8]].iter()) }) };
-                forged.extend(forgeries(&m, base.num_players, &payloads));
+                forged.extend(forgeries(&m, base.num_players, payloads));
             }
             forged.extend(foreign_kinds(b_magic));
             n_forged += forged.len();
@@ -310,7 +316,7 @@ pub fn c08() -> i32 {
     for s in scns.iter().step_by((n / 5).max(1)).take(5) {
         rep.samples.push(json!({"scenario": s.name, "forged_packet": s.inject[0].msg, "to": s.inject[0].to, "from": s.inject[0].from, "round": s.inject[0].round, "before_authentic": s.inject[0].before}));
     }
-    rep.absorb("live injection: one forged packet per run", out, &props, json!({"k": 0, "scenarios": n, "forged_packets": n_forged, "payload_strings": payloads.len(), "protocol_states": states}));
+    rep.absorb("live injection: one forged packet per run", out, &props, json!({"k": 0, "scenarios": n, "forged_packets": n_forged, "payload_strings_every_round": payloads.len(), "payload_strings_at_three_states": payloads2.len(), "protocol_states": states}));
     // two injections (thorough): pairs of structurally different forgeries at two rounds
     if t {
         let mut scns2 = Vec::new();
